@@ -174,6 +174,9 @@ class _Canonical(ast.NodeTransformer):
                 continue                    # docstrings and stray literals
             if isinstance(st, ast.Pass) and len(body) > 1:
                 continue
+            if isinstance(st, ast.If) and isinstance(st.test, ast.Constant) and isinstance(st.test.value, bool):
+                out += self._strip(st.body if st.test.value else st.orelse) if (st.body if st.test.value else st.orelse) else []
+                continue                    # `if True:` / `if False:` (left behind by an inlined helper with literal arguments)
             if isinstance(st, ast.If):
                 if st.orelse and all(isinstance(x, ast.Pass) for x in st.orelse):
                     st.orelse = []
@@ -264,6 +267,12 @@ class _Canonical(ast.NodeTransformer):
     def visit_BinOp(self, node):
         self.generic_visit(node)
         l, r = node.left, node.right
+        if isinstance(node.op, (ast.BitOr, ast.BitXor)):
+            # x | 0, 0 | x  (the identity left behind when a flag term folds away)
+            if isinstance(r, ast.Constant) and type(r.value) is int and r.value == 0:
+                return l
+            if isinstance(l, ast.Constant) and type(l.value) is int and l.value == 0:
+                return r
         if isinstance(l, ast.Constant) and isinstance(r, ast.Constant) and type(l.value) is int and type(r.value) is int and type(node.op) in self._BIN:
             try:
                 if isinstance(node.op, (ast.LShift,)) and r.value > 64:
@@ -295,6 +304,8 @@ class _Canonical(ast.NodeTransformer):
     def visit_IfExp(self, node):
         node = self.generic_visit(node)
         node.test = self._truth(node.test)
+        if isinstance(node.test, ast.Constant) and isinstance(node.test.value, bool):
+            return node.body if node.test.value else node.orelse
         return node
 
     def visit_Assert(self, node):
@@ -323,6 +334,8 @@ class _Canonical(ast.NodeTransformer):
     def visit_UnaryOp(self, node):
         self.generic_visit(node)
         # `not a == b` -> `a != b` (and is/in likewise; not for the order comparisons, which need not be total)
+        if isinstance(node.op, ast.Not) and isinstance(node.operand, ast.Constant) and isinstance(node.operand.value, bool):
+            return ast.copy_location(ast.Constant(value=not node.operand.value), node)
         if isinstance(node.op, ast.Not) and isinstance(node.operand, ast.Compare) and len(node.operand.ops) == 1 and type(node.operand.ops[0]) in self._NEG:
             c = node.operand
             return ast.copy_location(ast.Compare(left=c.left, ops=[self._NEG[type(c.ops[0])]()], comparators=c.comparators), node)
@@ -744,7 +757,54 @@ def _pure_self_methods(tree: ast.Module) -> set:
     return pure
 
 
-def _harmful_calls(e: ast.AST):
+_SELF_WRITES: dict = {}          # per module: method name -> set of attribute names it may store on any object, transitively through self-calls
+
+
+def _self_writes(tree: ast.Module) -> dict:
+    """For every method name of the module: the attribute names the method(s) of that name may store (on self or on anything
+    else -- names only), including what the methods of self they call store.  A name that resolves to no method is absent."""
+    direct, calls = {}, {}
+    for c in [n for n in tree.body if isinstance(n, ast.ClassDef)]:
+        for m in [n for n in c.body if isinstance(n, ast.FunctionDef)]:
+            names = {m.name}
+            if m.name.startswith("__") and not m.name.endswith("__"):
+                names.add(f"_{c.name}{m.name}")
+            w = {x.attr for x in ast.walk(m) if isinstance(x, ast.Attribute) and isinstance(x.ctx, (ast.Store, ast.Del))}
+            # setattr(self, ...) and the like: unknown
+            if any(isinstance(x, ast.Call) and isinstance(x.func, ast.Name) and x.func.id in ("setattr", "delattr", "exec", "eval") for x in ast.walk(m)):
+                w = None
+            cs = {x.func.attr for x in ast.walk(m) if isinstance(x, ast.Call) and isinstance(x.func, ast.Attribute)
+                  and ((isinstance(x.func.value, ast.Name) and x.func.value.id == "self") or (isinstance(x.func.value, ast.Call) and isinstance(x.func.value.func, ast.Name) and x.func.value.func.id == "super"))}
+            for nm in names:
+                if nm in direct and (direct[nm] is None or w is None):
+                    direct[nm] = None
+                else:
+                    direct[nm] = (direct.get(nm) or set()) | (w or set()) if w is not None else None
+                calls[nm] = calls.get(nm, set()) | cs
+    out = {k: (set(v) if v is not None else None) for k, v in direct.items()}
+    for _ in range(len(out) + 1):
+        changed = False
+        for nm in out:
+            if out[nm] is None:
+                continue
+            for callee in calls.get(nm, ()):
+                if callee not in out:
+                    continue            # a method defined elsewhere (base class of another module): taken not to store the caller's fields
+                if out[callee] is None:
+                    out[nm] = None
+                    changed = True
+                    break
+                if not out[callee] <= out[nm]:
+                    out[nm] |= out[callee]
+                    changed = True
+        if not changed:
+            break
+    global _SELF_WRITES
+    _SELF_WRITES = out
+    return out
+
+
+def _harmful_calls(e: ast.AST, attrs=None):
     """Calls that may change state the caller cannot see from here or that may block while another thread changes it: everything
     but pure built-ins, the static functions of _PURE_STATIC and read-only methods (_PURE_METHODS) on a plain local name."""
     out = []
@@ -760,6 +820,9 @@ def _harmful_calls(e: ast.AST):
             continue                    # a method of a literal ('x'.join, b''.ljust)
         if isinstance(f, ast.Attribute) and isinstance(f.value, ast.Name) and f.value.id == "self" and f.attr in _PURE_SELF_METHODS:
             continue                    # a method of self that stores nothing and calls nothing harmful
+        if attrs is not None and isinstance(f, ast.Attribute) and isinstance(f.value, ast.Name) and f.value.id == "self" \
+                and _SELF_WRITES.get(f.attr) is not None and not (_SELF_WRITES[f.attr] & set(attrs)):
+            continue                    # a method of self that (transitively) stores none of the fields in question
         if isinstance(f, ast.Attribute) and isinstance(f.value, ast.Name):
             if f"{f.value.id}.{f.attr}" in _PURE_STATIC:
                 continue
@@ -772,7 +835,7 @@ def _harmful_calls(e: ast.AST):
     return out
 
 
-def _harm_before_use(span, uses) -> bool:
+def _harm_before_use(span, uses, attrs=None) -> bool:
     """May a harmful call (see _harmful_calls) run after the first statement of `span` starts and before one of `uses` is
     evaluated?  Units (simple statements, tests of if/while, iterables of for) are taken in source order, which for code
     without loops contains every execution order; two units in opposite branches of one if cannot follow each other; a loop
@@ -813,17 +876,17 @@ def _harm_before_use(span, uses) -> bool:
         return True                     # a use in a place this walk does not model
     for k, u in use_units:
         sc, path, loop = units[k]
-        if loop is not None and any(_harmful_calls(sc2) for sc2, _p2, l2 in units if l2 is loop):
+        if loop is not None and any(_harmful_calls(sc2, attrs) for sc2, _p2, l2 in units if l2 is loop):
             return True
         # inside the unit itself: harmful calls evaluated before the use
         ev, reached = _eval_events(sc, u) if isinstance(sc, (ast.expr,) + _SIMPLE_STMTS) else ([], False)
-        if not reached or any(kind == "call" and _harmful_calls(e_) and not any(u is y for y in ast.walk(e_.func)) for kind, e_ in ev):
+        if not reached or any(kind == "call" and _harmful_calls(e_, attrs) and not any(u is y for y in ast.walk(e_.func)) for kind, e_ in ev):
             return True
         for j in range(k):
             sc2, path2, _l2 = units[j]
             if exclusive(path2, path):
                 continue
-            hc = _harmful_calls(sc2)
+            hc = _harmful_calls(sc2, attrs)
             if hc:
                 return True
     return False
@@ -936,7 +999,7 @@ def _stable_rhs(fn, blk, i, rhs, uses, params) -> bool:
     if attrs:
         # a field is read: between the assignment and a use nothing may run that could store it behind our back or block while
         # another thread does (a method of self, a callback, a wait, a queue get, a send that is answered synchronously)
-        if _harm_before_use(after[:last + 1], uses):
+        if _harm_before_use(after[:last + 1], uses, attrs if not roots else None):
             return False
     return True
 
@@ -1500,6 +1563,37 @@ def _rename_by_role(fn: ast.FunctionDef, ref_fn: dict, known: set) -> None:
                 n.id = x
 
 
+def _fold_flag_building(fn: ast.FunctionDef, known: set) -> None:
+    """A fresh local built up as a flag word -- `t = A`, `t |= B`, `if c: t |= K` -- becomes one expression:
+    `if c: t |= K` -> `t |= K if c else 0` (c and K without calls), and `t = A` directly followed by `t |= B` -> `t = A | B`."""
+    for _ in range(30):
+        changed = False
+        for blk in _fn_blocks(fn):
+            for i, st in enumerate(blk):
+                if isinstance(st, ast.If) and not st.orelse and len(st.body) == 1 and isinstance(st.body[0], ast.AugAssign) and isinstance(st.body[0].op, ast.BitOr) \
+                        and isinstance(st.body[0].target, ast.Name) and st.body[0].target.id not in known \
+                        and not any(isinstance(x, (ast.Call, ast.NamedExpr, ast.Await, ast.Yield)) for x in ast.walk(st.test)) \
+                        and not any(isinstance(x, (ast.Call, ast.NamedExpr, ast.Await, ast.Yield)) for x in ast.walk(st.body[0].value)) \
+                        and not any(isinstance(x, ast.Name) and x.id == st.body[0].target.id for x in ast.walk(st.test)):
+                    a = st.body[0]
+                    blk[i] = ast.copy_location(ast.AugAssign(target=a.target, op=ast.BitOr(), value=ast.IfExp(test=st.test, body=a.value, orelse=ast.Constant(value=0))), st)
+                    changed = True
+                    break
+                if isinstance(st, ast.Assign) and len(st.targets) == 1 and isinstance(st.targets[0], ast.Name) and st.targets[0].id not in known and i + 1 < len(blk) \
+                        and isinstance(blk[i + 1], ast.AugAssign) and isinstance(blk[i + 1].op, ast.BitOr) and isinstance(blk[i + 1].target, ast.Name) \
+                        and blk[i + 1].target.id == st.targets[0].id and not _impure_calls(blk[i + 1].value) \
+                        and not any(isinstance(x, ast.Name) and x.id == st.targets[0].id for x in ast.walk(blk[i + 1].value)):
+                    st.value = ast.BinOp(left=st.value, op=ast.BitOr(), right=blk[i + 1].value)
+                    del blk[i + 1]
+                    changed = True
+                    break
+            if changed:
+                break
+        if not changed:
+            break
+    ast.fix_missing_locations(fn)
+
+
 def _delay_snapshot_mutation(fn: ast.FunctionDef, known: set) -> None:
     """`t = self.a` / `self.a ^= K` / ... uses of t ...   ->   `t = self.a` / ... uses of t ... / `self.a ^= K`: an update of
     an attribute whose old value was saved in a fresh local moves behind the last use of that local, when nothing in between
@@ -1643,7 +1737,7 @@ def _inline_fresh_temps(fn: ast.FunctionDef, known: set, multi: bool = True) -> 
                         # nothing between the alias and one of its uses may re-bind the chain behind our back (see _harmful_calls);
                         # a call made *through* the alias is the call the original made on the chain itself
                         idx_last = max(k for k in range(i + 1, len(blk)) if any(u is y for u in loads[t] for y in ast.walk(blk[k])))
-                        if _harm_before_use(blk[i + 1:idx_last + 1], loads[t]):
+                        if _harm_before_use(blk[i + 1:idx_last + 1], loads[t], attr_names if isinstance(root, ast.Name) and root.id == "self" else None):
                             clash = True
                     if not clash and later:
                         for u in loads[t]:
@@ -1811,6 +1905,7 @@ def canonicalise(tree: ast.Module, rel: str = "") -> ast.Module:
         canon.restore_inlined_helpers(tree, ref)
     ctor = _ctor_fields(tree) if ref is not None else {}
     _pure_self_methods(tree)
+    _self_writes(tree)
     if names or ref is not None:
         def walk(node, prefix):
             for n in getattr(node, "body", []):
@@ -1849,6 +1944,7 @@ def canonicalise(tree: ast.Module, rel: str = "") -> ast.Module:
                         rename()
                         shape()
                         rename()
+                        _fold_flag_building(n, known)
                         _delay_snapshot_mutation(n, known)
                         _dissolve_setdefault_alias(n, known)
                         _merge_name_alias(n, known)
